@@ -1,5 +1,5 @@
 (* C13 — a message that differs from an accepted one in any covered part is rejected unless a MAC
-   collision is exhibited; panic classes of verify / client_verify. *)
+   collision is exhibited; verify / client_verify / the server never panic. *)
 From HV Require Import Lib.Base C13.Model C13.AuthProofs C13.TbsProofs.
 Open Scope N_scope.
 
@@ -46,9 +46,9 @@ Proof.
   intros R0 B B' A A' F F' E.
   unfold client_verify, verify in A, A'. cbn [negb] in A, A'. rewrite F in A. rewrite F' in A'.
   rewrite R0 in A, A'. change (0 =? 0) with true in A, A'.
-  destruct (verify_view mac (vf_signer vf) v (Some (vf_prev vf)) true) as [| | | | | |mc tm lo hi] eqn:V;
+  destruct (verify_view mac (vf_signer vf) v (Some (vf_prev vf)) true) as [| | | | |mc tm lo hi] eqn:V;
     try discriminate.
-  destruct (verify_view mac (vf_signer vf) v' (Some (vf_prev vf)) true) as [| | | | | |mc' tm' lo' hi'] eqn:V';
+  destruct (verify_view mac (vf_signer vf) v' (Some (vf_prev vf)) true) as [| | | | |mc' tm' lo' hi'] eqn:V';
     try discriminate.
   apply verify_view_ok in V, V'.
   destruct V as (_ & _ & _ & M & _). destruct V' as (_ & _ & _ & M' & _).
@@ -65,9 +65,9 @@ Proof.
   intros R0 B B' A A' F F' E. apply N.eqb_neq in R0.
   unfold client_verify, verify in A, A'. cbn [negb] in A, A'. rewrite F in A. rewrite F' in A'.
   rewrite R0 in A, A'.
-  destruct (verify_view mac (vf_signer vf) v (Some (vf_prev vf)) false) as [| | | | | |mc tm lo hi] eqn:V;
+  destruct (verify_view mac (vf_signer vf) v (Some (vf_prev vf)) false) as [| | | | |mc tm lo hi] eqn:V;
     try discriminate.
-  destruct (verify_view mac (vf_signer vf) v' (Some (vf_prev vf)) false) as [| | | | | |mc' tm' lo' hi'] eqn:V';
+  destruct (verify_view mac (vf_signer vf) v' (Some (vf_prev vf)) false) as [| | | | |mc' tm' lo' hi'] eqn:V';
     try discriminate.
   apply verify_view_ok in V, V'.
   destruct V as (_ & _ & _ & M & _). destruct V' as (_ & _ & _ & M' & _).
@@ -78,77 +78,21 @@ Proof.
     split; [exact Ne|congruence].
 Qed.
 
-(* --- panics --- *)
+(* --- no panics --- *)
 
-Lemma verify_panics deep s m prev first :
-  verify mac deep s m prev first = VDbgPanic <-> deep = true /\ frame m = FPanic.
+Lemma verify_no_panic deep s m prev first : verify mac deep s m prev first <> VPanic.
 Proof.
-  unfold verify. destruct deep; cbn [negb].
-  2:{ split; [discriminate|intros (? & _); discriminate]. }
-  destruct (frame m) as [|h| |v] eqn:F.
-  - split; [discriminate|intros (_ & ?); discriminate].
-  - split; [discriminate|intros (_ & ?); discriminate].
-  - tauto.
-  - split; [|intros (_ & ?); discriminate]. intros H. exfalso. eapply verify_view_never_dbg; eauto.
+  unfold verify. destruct (negb deep); [discriminate|].
+  destruct (frame m); try discriminate. apply verify_view_never_panics.
 Qed.
 
-Lemma client_verify_panics deep vf r :
-  client_verify mac deep vf r = CRPanic <->
-  deep = true /\
-  (frame r = FPanic \/
-   exists v, frame r = FSigned v /\
-     verify_view mac (vf_signer vf) v (Some (vf_prev vf)) (vf_remote vf =? 0) = VUnderflow).
+Lemma client_verify_no_panic deep vf r : client_verify mac deep vf r <> CRPanic.
 Proof.
-  unfold client_verify, verify. destruct deep; cbn [negb].
-  2:{ split; [discriminate|intros (? & _); discriminate]. }
-  destruct (frame r) as [|h| |v] eqn:F.
-  - split; [discriminate|]. intros (_ & [?|(v & ? & _)]); discriminate.
-  - split; [discriminate|]. intros (_ & [?|(v & ? & _)]); discriminate.
-  - split; auto.
-  - destruct (verify_view mac (vf_signer vf) v (Some (vf_prev vf)) (vf_remote vf =? 0))
-      as [| | | | | |mc tm lo hi] eqn:V.
-    all: try (split; [discriminate|]; intros (_ & [?|(v0 & [= <-] & V0)]); [discriminate|congruence]).
-    + exfalso. eapply verify_view_never_dbg; eauto.
-    + split; [intros _|reflexivity]. split; [reflexivity|]. right. exists v. auto.
-    + destruct (_ && _); (split; [discriminate|]);
-        intros (_ & [?|(v0 & [= <-] & V0)]); [discriminate|congruence|discriminate|congruence].
-Qed.
-
-(* what makes signed_bitmessage_to_buf panic *)
-Definition frame_panics (m : bytes) : Prop :=
-  exists h rest r1, parse_header m = Some (h, rest) /\ h_ar h <> 0 /\
-    skip_queries (N.to_nat (h_qd h)) rest = Some r1 /\
-    (65536 <= h_an h + h_ns h \/
-     exists r2 r3, skip_plain (N.to_nat (h_an h + h_ns h)) r1 = Some r2 /\
-                   skip_add (N.to_nat (h_ar h - 1)) false r2 = Some (r3, true)).
-
-Lemma frame_panic_class m : frame m = FPanic <-> frame_panics m.
-Proof.
-  unfold frame, frame_panics. destruct (parse_header m) as [[h rest]|] eqn:Eh.
-  2:{ split; [discriminate|]. intros (h & rest & r1 & ? & _). discriminate. }
-  destruct (h_ar h =? 0) eqn:Ea.
-  { apply N.eqb_eq in Ea. split.
-    - destruct (skip_queries _ rest); [|discriminate]. destruct (skip_plain _ _); discriminate.
-    - intros (h' & rest' & r1 & [= <- <-] & Hn & _). contradiction. }
-  apply N.eqb_neq in Ea.
-  destruct (skip_queries (N.to_nat (h_qd h)) rest) as [r1|] eqn:E1.
-  2:{ split; [discriminate|]. intros (h' & rest' & r1 & [= <- <-] & _ & ? & _). congruence. }
-  destruct (65536 <=? h_an h + h_ns h) eqn:Eo.
-  { apply N.leb_le in Eo. split; [intros _|reflexivity]. exists h, rest, r1. auto. }
-  apply N.leb_gt in Eo.
-  destruct (skip_plain (N.to_nat (h_an h + h_ns h)) r1) as [r2|] eqn:E2.
-  2:{ split; [discriminate|]. intros (h' & rest' & r1' & [= <- <-] & _ & E1' & [?|(r2 & r3 & ? & _)]); [lia|].
-      rewrite E1 in E1'. injection E1' as <-. congruence. }
-  destruct (skip_add (N.to_nat (h_ar h - 1)) false r2) as [[r3 fl]|] eqn:E3.
-  2:{ split; [discriminate|]. intros (h' & rest' & r1' & [= <- <-] & _ & E1' & [?|(r2' & r3 & E2' & E3')]); [lia|].
-      rewrite E1 in E1'. injection E1' as <-. rewrite E2 in E2'. injection E2' as <-. congruence. }
-  destruct fl.
-  - split; [intros _|reflexivity]. exists h, rest, r1. repeat split; auto. right. exists r2, r3. auto.
-  - split.
-    + destruct (parse_tsig_rr m (length m - length r3)); discriminate.
-    + intros (h' & rest' & r1' & [= <- <-] & _ & E1' & [?|(r2' & r3' & E2' & E3')]); [lia|].
-      rewrite E1 in E1'. injection E1' as <-. rewrite E2 in E2'. injection E2' as <-.
-      rewrite E3 in E3'. discriminate.
+  unfold client_verify.
+  destruct (verify mac deep (vf_signer vf) r (Some (vf_prev vf)) (vf_remote vf =? 0)) eqn:V;
+    try discriminate.
+  - exfalso. eapply verify_no_panic; eauto.
+  - destruct (_ && _); discriminate.
 Qed.
 
 End Forge.
